@@ -44,7 +44,7 @@ KINDS = ["in_unit", "in_unit", "in_unit", "eq", "lt", "add"]
 
 
 def strategy(tier):
-    SPEC = synth.world_spec(connected=False, chainy=True, nunits=(3, 6), keep=8, min_ext=1)
+    SPEC = synth.world_spec(connected=False, chainy=True, nunits=(3, 6), keep=8, min_ext=1, rings=True)
     MAG = st.sampled_from([{"t": "int", "v": 1}, {"t": "int", "v": 3}, {"t": "float", "v": 2.5}, {"t": "int", "v": -7}])
     KIND = st.sampled_from(KINDS)
 
